@@ -89,6 +89,14 @@ def build_config(scn, workdir=None):
            'default_data_file': os.path.join(os.path.abspath(workdir), 't.data') if workdir else 't.data',
            'benchmark_suites': suites, 'executors': execs,
            'experiments': {'T': {'executions': [{'E%d%s' % (x, nsfx): {'suites': ss}} for x, ss in sorted(per_exe.items())]}}}
+    if scn.get('second_file_runs') is not None:
+        # a second experiment with its OWN data file that contains some of the runs of the first one
+        sub = {}
+        for i in scn['second_file_runs']:
+            sub.setdefault(runs[i]['exe'], []).append('S%d%s' % (i, nsfx))
+        cfg['experiments']['T2'] = {
+            'data_file': os.path.join(os.path.abspath(workdir), 't2.data') if workdir else 't2.data',
+            'executions': [{'E%d%s' % (x, nsfx): {'suites': ss}} for x, ss in sorted(sub.items())]}
     if scn.get('two_experiments'):
         # the same runs belong to a second experiment that shares the data file; the session runs `all`
         import copy
@@ -108,6 +116,8 @@ def _bench_details(r):
         d['ignore_timeouts'] = True
     if r.get('maxtime') is not None:
         d['max_invocation_time'] = r['maxtime']
+    if r.get('pif') is not None:
+        d['parallel_interference_factor'] = r['pif']
     return d
 
 
@@ -189,6 +199,18 @@ def render_time_output(k, o, wrapper):
     return ''.join(l + '\n' for l in lines)
 
 
+def render_jmh_output(k, o):
+    """a JMH log: iteration lines, `# Run complete`, and the summary table (whose header contains the word Error)"""
+    lines = ['# JMH version: 1.21', '# Benchmark: bench.B', '# Warmup: none']
+    for j in range(1, o.get('dps', 0) + 1):
+        lines.append('Iteration %3d: %d.000 ms/op' % (j, 1000 * k + j))
+    if o.get('marker'):
+        lines.insert(o.get('marker_pos', 1) and len(lines) or 0, o.get('marker_text') or 'Error: simulated')
+    lines.append('# Run complete. Total time: 00:00:01')
+    lines.append('Benchmark   Mode  Cnt  Score   Error  Units')
+    return ''.join(l + '\n' for l in lines)
+
+
 def render_output(i, k, o, deco=None):
     """what the k-th started process of run i prints for outcome o"""
     deco = deco or {}
@@ -224,6 +246,7 @@ class Script(object):
         self.lock = threading.Lock()
         self.gate = None       # thread controller (parallel scenarios)
         self.unknown = []
+        self.runaway = []      # runs started more often than N + 40 times
         self.build_runs = {}   # build key -> how often it ran
         self.unbuilt_starts = []   # benchmark starts whose build had not run in this session
         self.commands = []     # [run, invocation, time wrapper] of every benchmark start
@@ -251,6 +274,13 @@ class Script(object):
             rec['run'], rec['inv'], rec['k'] = i, inv, k
             wrapper = time_wrapper(args)
             self.commands.append([i, inv, wrapper])
+        # a run that is restarted without bound must not hang the check: beyond the cap the process "is missing"
+        cap = self.scn['runs'][i]['N'] + 40
+        if k > cap:
+            with self.lock:
+                if i not in self.runaway:
+                    self.runaway.append(i)
+            return drive.Outcome(127, '')
         sc = self.sess['scripts'][i] if i < len(self.sess['scripts']) else []
         o = sc[k - 1] if k <= len(sc) else DEFAULT_FAIL
         if self.gate is not None:
@@ -276,6 +306,8 @@ class Script(object):
             return drive.Outcome(interrupt=True)
         if self.scn['runs'][i].get('gauge') == 'Time':
             return drive.Outcome(o['rc'], render_time_output(k, o, wrapper))
+        if self.scn['runs'][i].get('gauge') == 'JMH':
+            return drive.Outcome(o['rc'], render_jmh_output(k, o))
         return drive.Outcome(o['rc'], render_output(i, k, o, self.scn.get('deco')))
 
 
@@ -362,7 +394,8 @@ def run_session(workdir, scn, sess, timeout_guard=None):
                                  for r in runs)
         return orig(self, runs, *a, **kw)
 
-    argv = [conf] + (['all'] if scn.get('two_experiments') else []) + list(sess.get('argv') or [])
+    argv = [conf] + (['all'] if scn.get('two_experiments') or scn.get('second_file_runs') is not None else []) \
+        + list(sess.get('argv') or [])
     if sess.get('sched') and sess['sched'] != 'batch':
         argv += ['-s', sess['sched']]
     if sess.get('faulty'):
@@ -410,7 +443,7 @@ def run_session(workdir, scn, sess, timeout_guard=None):
            'mentions_missing_adapter': ("Couldn't find gauge adapter" in res.stdout + res.stderr),
            'order': grabbed.get('order'), 'loaded': grabbed.get('loaded'),
            'log': [list(x) for x in script.log], 'unknown_starts': script.unknown,
-           'commands': script.commands, 'probes': script.probes, 'unbuilt_starts': script.unbuilt_starts,
+           'commands': script.commands, 'probes': script.probes, 'runaway': script.runaway, 'unbuilt_starts': script.unbuilt_starts,
            'nchoices': pos['i'], 'out_tail': (res.stdout + res.stderr)[-600:]}
     if controller is not None:
         obs['released'] = controller.released
@@ -433,6 +466,8 @@ def run_session(workdir, scn, sess, timeout_guard=None):
             'N': r.invocations}
     obs['final'] = final
     obs['file'] = read_rows(os.path.join(workdir, 't.data'))
+    if scn.get('second_file_runs') is not None:
+        obs['raw_files'] = dict((name, drive.read_data_file(os.path.join(workdir, name))) for name in ('t.data', 't2.data'))
     # free scripted processes that still wait for a kill (interrupt scenarios)
     return obs
 
